@@ -67,6 +67,10 @@ Theorem C14_each_association_once_conv :
          a_get keq m x = Some v -> exists k : K, In (k, v) m /\ keq x k = true.
 Proof. exact C03_views_conv. Qed.
 
+Example C14_each_association_once_conv_example :
+  a_get keq ex_cat kb = Some (iv 2) /\ In (kb, iv 2) ex_cat /\ keq kb kb = true.
+Proof. split; [vm_compute; reflexivity|]. split; [right; left; reflexivity|vm_compute; reflexivity]. Qed.
+
 Theorem C14_absent_reads_zero :
   forall (K V : Type) (vzero : V) (keq : K -> K -> bool) (m : list (K * V)) (k : K),
          a_get keq m k = None -> a_get_or_zero vzero keq m k = vzero.
@@ -84,6 +88,12 @@ Theorem C14_lookup_after_set :
          forall (m : list (K * V)) (k : K) (v : V) (x : K),
          a_get keq (a_set keq m k v) x = (if keq x k then Some v else a_get keq m x).
 Proof. exact a_get_set. Qed.
+
+Example C14_lookup_after_set_example :
+  (forall a b : val, keq a b = keq b a) /\
+  (forall a b c : val, keq a b = true -> keq b c = true -> keq a c = true) /\
+  a_get keq (a_set keq ex_cat kb (iv 20)) kb = Some (iv 20) /\ a_get keq (a_set keq ex_cat kb (iv 20)) kc = Some (iv 3).
+Proof. split; [exact keq_sym|]. split; [exact keq_trans|]. split; vm_compute; reflexivity. Qed.
 
 Theorem C14_lookup_after_remove :
   forall (K V : Type) (keq : K -> K -> bool),
